@@ -546,7 +546,11 @@ def specStep (t : Spec) : Op → Out × Spec
     match t.vec h with
     | none => (.fault .badHandle, t)
     | some (_, xs) => (.bool xs.isEmpty, t)
-  | .capacity _ => (.unit, t)   -- not specified by a vector's contents: see `Inv`
+  | .capacity h =>
+    -- the value is not determined by a vector's contents (see `RawOk`)
+    match t.vec h with
+    | none => (.fault .badHandle, t)
+    | some _ => (.unit, t)
   | .swap h i j =>
     match t.vec h with
     | none => (.fault .badHandle, t)
